@@ -25,7 +25,7 @@ def validate(traces, name="enginetrace", timeout=1800, chunks=16):
     os.makedirs(os.path.join(BUILD, "traces"), exist_ok=True)
     jobs = []
     for j, part in enumerate(parts):
-        path = os.path.join(BUILD, "traces", f"{name}-{j}.json")
+        path = os.path.join(BUILD, "traces", f"{name}-{os.getpid()}-{j}.json")
         with open(path, "w") as f:
             json.dump(part, f)
         cfg = tlc.cfg_text(spec="TSpec", constants=[])
